@@ -34,6 +34,9 @@ def main():
     ap.add_argument("--tier", default="quick")
     ap.add_argument("--seeds", default="0")
     ap.add_argument("--jobs", type=int, default=16)
+    ap.add_argument("--keep", help="store the confirmed seed as /verif/seeded/<KEEP>/ (patch.diff, demo.py, notes.md, meta.json)")
+    ap.add_argument("--breaks", help="property id the change was written to break (for meta.json)")
+    ap.add_argument("--needs", help="what the change needs in order to manifest (for meta.json)")
     args = ap.parse_args()
     seed = os.path.abspath(args.seed)
     scratch = tempfile.mkdtemp(prefix="vseed_", dir="/var/tmp")
@@ -77,6 +80,30 @@ def main():
     ok = out.get("demo_on_original") == 0 and out.get("tests_with_change") == 0 and out.get("demo_with_change", 0) != 0
     out["confirmed"] = ok
     out["caught_by"] = sorted(k for k, v in out["checks"].items() if v["exit"] == 1 and v["violations"])
+    if args.keep and ok:
+        dst = os.path.join(VERIF, "seeded", args.keep)
+        os.makedirs(dst, exist_ok=True)
+        for f in ("patch.diff", "demo.py", "notes.md"):
+            if os.path.exists(os.path.join(seed, f)):
+                shutil.copy(os.path.join(seed, f), os.path.join(dst, f))
+        meta_path = os.path.join(dst, "meta.json")
+        meta = json.load(open(meta_path)) if os.path.exists(meta_path) else {}
+        meta.update({
+            "id": args.keep,
+            "breaks_property": args.breaks or meta.get("breaks_property"),
+            "needs_to_manifest": args.needs or meta.get("needs_to_manifest"),
+            "author": "independent sub-agent given only the property text and a scratch worktree",
+            "confirmed": {"demo_on_original_exit": out["demo_on_original"], "repo_tests_with_change_exit": out["tests_with_change"],
+                          "repo_tests_tail": out.get("tests_tail"), "demo_with_change_exit": out["demo_with_change"],
+                          "demo_failure": out.get("demo_failure")},
+            "how_confirmed": "tools/seedtest.py: scratch copy of /repo/amaranth_soc + tests under /var/tmp; demo on original; "
+                             "git apply patch.diff; full pytest; demo again; checks run with VERIF_REPO=<scratch copy>",
+        })
+        runs = meta.setdefault("check_runs", {})
+        for k, v in out["checks"].items():
+            runs[k] = {"exit": v["exit"], "violation_lines": v["violations"], "monitors": v["groups"][:3]}
+        meta["caught_by"] = sorted(k for k, v in runs.items() if v["exit"] == 1 and v["violation_lines"])
+        json.dump(meta, open(meta_path, "w"), indent=1)
     print(json.dumps(out, indent=1))
     return 0
 
